@@ -44,6 +44,20 @@ CHECKS["C01"] = dict(
          "wildcard precedence, open content per Structures 1.1 3.4.4.2.",
     ref="DESIGN.md 5/C01")
 
+CHECKS["C12"] = dict(
+    technique=TECH + " - XMLResource.access_control/get_url with a symbolic URL string (sandbox kernel, URL classification) and "
+                     "finite-choice spelled locations through the real normalize_url",
+    category="model_checking",
+    text="Sandbox kernel: for every tail string (<=3 chars quick / <=5 thorough over 'sa/_') appended to the normalised base URL, acceptance "
+         "implies component-wise containment; classification: for every URL built from a scheme-relevant alphabet the allow modes "
+         "none/local/remote agree with an RFC 3986 scheme classifier and local/remote are mutually exclusive; spelled locations (relative, "
+         "dotted, percent-encoded, absolute, file URL; segments chosen by symbolic indices) resolved by the real get_url never pass the "
+         "sandbox unless the final URL lies inside the base directory.",
+    note="Nothing is opened (text-source resource; only get_url/access_control run). posixpath/pathlib are C-level and intolerant of symbolic "
+         "strings, hence finite-choice spellings. Symlinks/Windows/network outside. Reach via include/import etc. relies on all of them "
+         "constructing XMLResource with the propagated settings.",
+    ref="DESIGN.md 5/C12")
+
 NOT_APPLICABLE = {
     "C18": "quantifies over thread interleavings; no engine of this family here executes Python threads symbolically (CrossHair is "
            "single-threaded); see DESIGN.md section 6",
